@@ -86,6 +86,8 @@ Definition xq_max (a b : xq) : xq :=
 Definition xq_min (a b : xq) : xq :=
   match a, b with NaN, _ => b | _, NaN => a | _, _ => if xq_ltb b a then b else a end.
 
+(* f64::clamp / f32::clamp: a NaN stays NaN *)
+Definition xq_clamp (x lo hi : xq) : xq := if xq_ltb x lo then lo else if xq_gtb x hi then hi else x.
 Definition xq_lit (q : Q) : xq := Fin q.
 Definition xq_powi2 (a : xq) : xq := xq_mul a a.
 Definition xq_unwrap_or (o : option xq) (d : xq) : xq := match o with Some v => v | None => d end.
